@@ -1,6 +1,7 @@
 (* C05 — Round trip: deserialize after serialize is the identity on values. *)
 From Coq Require Import List String ZArith Bool.
-From AV Require Import Core.Json Deser.Model Deser.Spec Ser.Model Ser.Spec Ser.RoundTrip Ser.RoundTripProofs Ser.RoundTripInd.
+From AV Require Import Core.Json Deser.Model Deser.Spec Ser.Model Ser.Spec Ser.RoundTrip Ser.RoundTripProofs Ser.RoundTripInd Ser.CompileProofs Ser.Chain
+  Deser.Proofs.
 Import ListNotations.
 
 (* values of type Any: the JSON value built from any JSON datum reads back as the same datum *)
@@ -36,3 +37,16 @@ Print Assumptions C05_round_trip_checked.
 Theorem C05_hypotheses_satisfiable : rt_hyps rt_ex_univ rt_ex_opts 2 (TObj 0) rt_ex_value = true.
 Proof. exact rt_ex_hyps. Qed.
 Print Assumptions C05_hypotheses_satisfiable.
+
+(* ... and on the MODELS OF THE CODE themselves: chaining C04 (compiled serializer = image) and C01 (compiled deserializer =
+   spec), what the compiled serializer produces is read back by the compiled deserializer as the same value -- or the
+   deserializer model runs out of its fuel *)
+Theorem C05_compiled_models_round_trip :
+  forall u so mf n t v,
+  rt_hyps u so n t v = true -> cc_hyps u so mf n t v = true ->
+  wf_univ u (dopts_of so) = true -> wf_ty t = true -> union_order_ok t = true ->
+  exists j d, serialize u so (S n) t v = SROk j /\ unembed j = Some d /\
+              (wf_data d = true ->
+               deserialize u (dopts_of so) (S n) None t d = ROk v \/ deserialize u (dopts_of so) (S n) None t d = RFuel).
+Proof. exact compiled_models_round_trip. Qed.
+Print Assumptions C05_compiled_models_round_trip.
